@@ -122,6 +122,16 @@ LayoutOk == vphase \in {"files", "block", "hiblock", "header"} =>
        /\ NatOf(vwst.blocks[bi].pos) + NatOf(vwst.blocks[bi].csize) <= Len(vwst.img)
        /\ (bi > 1 => NatOf(vwst.blocks[bi].pos) = NatOf(vwst.blocks[bi-1].pos) + NatOf(vwst.blocks[bi-1].csize))
   /\ Cardinality({hs \in 0..(vcfg.hcount - 1) : vwst.hash[hs].blk \notin {HASH_EMPTY, HASH_DELETED}}) = Len(vwst.blocks)
+  \* every block index in the hash table is the index of a written block; tables follow the data, back to back
+  /\ \A hs \in 0..(vcfg.hcount - 1) :
+        vwst.hash[hs].blk \notin {HASH_EMPTY, HASH_DELETED} => NatOf(vwst.hash[hs].blk) \in 0..(Len(vwst.blocks) - 1)
+  /\ (vphase \in {"block", "hiblock", "header"} =>
+        /\ vwst.htpos = (IF vwst.blocks = <<>> THEN HeaderSize(vcfg.ver)
+                         ELSE NatOf(vwst.blocks[Len(vwst.blocks)].pos) + NatOf(vwst.blocks[Len(vwst.blocks)].csize))
+        /\ (vphase = "block" => Len(vwst.img) = vwst.htpos + 16 * vcfg.hcount))
+  /\ (vphase \in {"hiblock", "header"} =>
+        /\ vwst.btpos = vwst.htpos + 16 * vcfg.hcount
+        /\ Len(vwst.img) >= vwst.btpos + 16 * Len(vwst.blocks))
 
 RoundTrip == vphase = "read" /\ vchecked = {} =>
   LET ar  == OpenArchive(vimg)
